@@ -99,6 +99,20 @@ def _dense(case):
         bad = 'rows not normalised'
     if not np.allclose(full - full[:, :1], dense - dense[:, :1], atol=1e-9):
         bad = 'differences within a frame not kept'
+    # the line then receives other logits
+    b = np.where(a != 0, a - 1.25, 0.0)
+    if case.get('second'):
+        V = case['second']['V']
+        for t in range(F):
+            for c in range(C):
+                if V[t][c] is not None:
+                    v = Fraction(V[t][c])
+                    b[t, c] = (math.log(v.numerator) - math.log(v.denominator)) or 1e-300
+    line.logits = scipy.sparse.csc_matrix(b)
+    d3 = line.get_dense_logits()
+    exp3 = np.where(b != 0, b, -80)
+    if not np.array_equal(d3, exp3):
+        bad = 'after assigning new logits dense reconstruction returns %r, expected %r' % (d3.tolist(), exp3.tolist())
     return full, bad
 
 
